@@ -135,6 +135,12 @@ func syncStub(fn *ssa.Function, name string) (stubFn, bool) {
 		switch fn.Name() {
 		case "OnceFunc", "OnceValue", "OnceValues":
 			return nil, false
+		case "NewCond":
+			// a fresh Cond object; Signal/Broadcast are no-ops, Wait is unsupported (single-threaded harnesses)
+			return func(in *Interp, fr *frame, fn *ssa.Function, args []Value) Value {
+				obj := in.newObject(in.zero(deref(fn.Signature.Results().At(0).Type())), "sync.NewCond")
+				return Pointer{obj: obj}
+			}, true
 		}
 		return nil, false
 	}
